@@ -299,6 +299,24 @@ class Generator:
                 op = self.build(root, path, m, a, d, k)
             except (decimal.DecimalException, ZeroDivisionError):
                 continue       # reading the current value of an expression such as 1/0
+            except (IndexError, KeyError, AttributeError) as e:
+                # building an operation only *reads* the document (lengths, keys, current elements). If that raises inside the
+                # library's list / view code, an earlier accepted edit left the document unreadable: handed to the check as an
+                # operation that says so (anything else is a defect of this harness and propagates)
+                tb = e.__traceback__
+                while tb.tb_next is not None:
+                    tb = tb.tb_next
+                fn = tb.tb_frame.f_code.co_filename
+                if not fn.endswith(('models/internal/properties.py', 'models/internal/value_properties.py', 'models/meta_item_internal.py',
+                                    'models/internal/interleaving_comments.py')):
+                    raise
+                msg = f'reading {path}.{a} raised {type(e).__name__}: {e} (in {fn.rsplit("/", 1)[-1]}:{tb.tb_lineno})'
+
+                def reraise(e=e):
+                    raise e
+                op = Op('state:unreadable', msg, root, '$', lambda: [], reraise)
+                op.unreadable = msg
+                return op
             if op is not None:
                 if k in LIST_KINDS:
                     self.sticky = m
@@ -596,7 +614,7 @@ class Generator:
             invalid = 'attached-element'
 
         dup = kk_dup = False
-        if op in ('extend', 'setslice', 'setext', 'iadd') and r.random() < 0.04:
+        if op in ('extend', 'setslice', 'setext', 'iadd') and r.random() < (0.15 if self.invalid_rate else 0.04):
             dup = True      # the same free node named twice in one batch: must be refused (a node cannot be in two places)
 
         def dn(kk, bad_at=None):
@@ -1132,8 +1150,28 @@ class MiscGenerator:
             p, m, w = r.choice(ws)
             first = next((x for x in w if hasattr(x, 'indent')), None)
             c.indent = first.indent if first is not None else ('' if isinstance(m, models.File) else '    ')
-            o = Op('claim:give-to-list', f'{p}.append(<copy of comment {src.raw_text!r:.30}, claimed={src.claimed}>)', root, '$', lambda: [],
-                   lambda: w.append(c))
+            # every route by which a list takes an element: the list owns what it holds, however it got it
+            own = [i for i, x in enumerate(w) if isinstance(x, models.BlockComment)]
+            route = r.choice(['append', 'insert', 'extend', 'setslice'] + (['setitem', 'setitem', 'setslice-over'] if own else []))
+            n = len(w)
+            if route == 'append':
+                call, how = (lambda: w.append(c)), 'append(c)'
+            elif route == 'insert':
+                i = r.randint(0, n)
+                call, how = (lambda: w.insert(i, c)), f'insert({i}, c)'
+            elif route == 'extend':
+                call, how = (lambda: w.extend([c])), 'extend([c])'
+            elif route == 'setslice':
+                i = r.randint(0, n)
+                call, how = (lambda: w.__setitem__(slice(i, i), [c])), f'[{i}:{i}] = [c]'
+            elif route == 'setitem':
+                i = r.choice(own) - r.choice([0, n])         # over a standalone comment the list already holds (positive or negative index)
+                call, how = (lambda: w.__setitem__(i, c)), f'[{i}] = c'
+            else:
+                i = r.choice(own)
+                call, how = (lambda: w.__setitem__(slice(i, i + 1), [c])), f'[{i}:{i + 1}] = [c]'
+            o = Op('claim:give-to-list', f'{p}.{how} with c = <copy of comment {src.raw_text!r:.30}, claimed={src.claimed}>', root, '$', lambda: [], call)
+            o.route = route
         else:
             sm = [(p, m) for p, m in nodes if isinstance(m, SurroundingCommentsMixin)]
             if not sm:
@@ -1351,3 +1389,36 @@ def assign_then_claim_ops(root, r):
     if r.random() < 0.5:
         op('file.auto_claim_comments()', root.auto_claim_comments)
     return out
+
+
+def new_neighbour_claims_ops(root, r):
+    """A comment that one owner has claimed by stepping over a list placeholder (a meta item's trailing comment in front of the
+    postings list, a list's last standalone comment ...) is released; a *new* model is put next to it on the other side of that
+    placeholder and claims it: the scan that walks backwards from the new model meets the placeholder the earlier claim moved."""
+    txns = [(p, m) for p, m in walker.tree_models(root) if isinstance(m, models.Transaction)]
+    r.shuffle(txns)
+    for p, t in txns:
+        items = list(t.raw_meta)
+        if not items:
+            continue
+        last = items[-1]
+        out = []
+
+        def op(desc, fn):
+            out.append(Op('claim:new-neighbour', f'[{p}] {desc}', root, '$', lambda: [], fn))
+        ind = last.indent or '    '
+        if vars(last).get('_trailing_comment') is None:
+            # give it one first (claimed forwards: the postings placeholder ends up behind the comment)
+            c = models.BlockComment.from_value('handed on', indent=ind)
+            op('last meta item: raw_trailing_comment = <new comment>', lambda: setattr(last, 'raw_trailing_comment', c))
+        op('last meta item releases its trailing comment', last.unclaim_trailing_comment)
+        if r.random() < 0.3:
+            op('... claims it again, releases it again', lambda: (last.claim_trailing_comment(), last.unclaim_trailing_comment()))
+        new = models.Posting.from_value('Assets:New', D(1), 'USD', indent=ind)
+        op('raw_postings_with_comments.insert(0, <new posting>)', lambda: t.raw_postings_with_comments.insert(0, new))
+        op('the new posting: claim_leading_comment()', new.claim_leading_comment)
+        if r.random() < 0.5:
+            op('the new posting: unclaim_leading_comment(); the meta item claims its trailing comment again',
+               lambda: (new.unclaim_leading_comment(), last.claim_trailing_comment()))
+        return out
+    return []
